@@ -507,6 +507,36 @@ class PropertyRun:
                 out_lines.append('VIOLATION property=%s replay=%s' % (self.pid, path))
             else:
                 out_lines.append('VIOLATION property=%s replay=%s no-failing-input-found' % (self.pid, path))
+        # The verifier could not decide (changed code outside the reach of the transported contracts).  A concrete failing
+        # input found by the probe against the REAL crate is still a demonstrated violation: report it with that input.
+        # (The probe never turns an undecided run into OK; without a failing input the run stays undecided.)
+        if self.undecided and not real_violations and self.cfg.get('input_search') and not os.environ.get('VT_NO_PROBE'):
+            try:
+                from . import probes
+                rep = dict(property=self.pid, verifier='probe after an undecided verifier run', failing_input=None,
+                           undecided=list(self.undecided))
+                f = probes.search(self.pid, dict(unit=''), rep)
+            except Exception as e:
+                f, rep = None, dict(input_search_error=str(e))
+            if f and rep.get('failing_input') is not None:
+                import hashlib
+                cls = re.sub(r'[^A-Za-z ]+', ' ', f.get('violated', ''))[-80:]
+                ob = '%s/undecided-unit/probe#%s' % (self.pid, hashlib.sha1(cls.encode()).hexdigest()[:6])
+                kf = [k for k in known_here if k['obligation'] == ob]
+                if kf:
+                    out_lines.append('KNOWN-FINDING: property=%s %s (%s)' % (self.pid, kf[0]['what'], ob))
+                else:
+                    os.makedirs(rdir, exist_ok=True)
+                    path = os.path.join(rdir, re.sub(r'[^A-Za-z0-9_.@-]', '_', ob) + '.json')
+                    rep.update(obligation=ob, kind='probe-after-undecided', verifier_output='\n'.join(self.undecided),
+                               failing_input_violates=f.get('violated'),
+                               note='Verus could not decide the changed code (see `undecided`); the probe found this input, which '
+                                    'violates the property statement when run against the real crate (cargo test --features verif)')
+                    json.dump(rep, open(path, 'w'), indent=1)
+                    out_lines.append('VIOLATION property=%s replay=%s' % (self.pid, path))
+                    real_violations.append(dict(obligation=ob, unit='undecided-unit', kind='probe-after-undecided',
+                                                message=f.get('violated'), clause_text='', failing_input=rep['failing_input']))
+                    self.violations.append(real_violations[-1])
         for u in self.undecided:
             out_lines.append('UNDECIDED property=%s %s' % (self.pid, u))
         # evidence
